@@ -26,6 +26,8 @@ func c17source(v int) string {
 import (
 	"fmt"
 	"time"
+
+	"lib/util"
 )
 
 type T struct {
@@ -48,6 +50,9 @@ var holder *T
 var boundV func(...int) string
 var capFV func(...int) string
 var captured bool
+var capG func() string
+var box *util.Box
+var boundB func() string
 
 func F() string {
 	return "F%[1]d"
@@ -79,7 +84,7 @@ func helper() string {
 }
 
 func Main() {
-	fmt.Println(F(), (&T{}).M(), helper(), Shadow())
+	fmt.Println(F(), (&T{}).M(), helper(), Shadow(), util.Greet())
 	keep++
 	fmt.Println(keep, reinit, anyv, named == nil)
 	reinit++
@@ -92,6 +97,9 @@ func Capture() {
 	holder = &T{f: F}
 	boundV = inst.V
 	capFV = FV
+	capG = util.Greet
+	box = &util.Box{}
+	boundB = box.Name
 	captured = true
 }
 
@@ -101,6 +109,7 @@ func UseCaptured() {
 		return
 	}
 	fmt.Println(capF(), inst.M(), bound(), holder.f(), boundV(1, 2), capFV(3), inst.V())
+	fmt.Println(capG(), util.Greet(), box.Name(), boundB())
 }
 
 func Bump() {
@@ -119,6 +128,11 @@ func Yielding() {
 	}
 }
 `, v)
+}
+
+// the imported package lives at an import path that differs from its package name
+func c17util(v int) string {
+	return fmt.Sprintf("package util\n\ntype Box struct {\n\tn int\n}\n\nfunc Greet() string {\n\treturn \"G%[1]d\"\n}\n\nfunc (b *Box) Name() string {\n\treturn \"B%[1]d\"\n}\n", v)
 }
 
 var c17events = []string{"Load(v0)", "Load(v1)", "Load(v2)", "Main", "Capture", "UseCaptured", "Bump", "Yielding", "Yielding+reload(v0)", "Yielding+reload(v1)", "Yielding+reload(v2)"}
@@ -140,7 +154,7 @@ func (s *c17ref) step(ev int) string {
 		s.reinit = 10
 		return ""
 	case ev == 3:
-		out := fmt.Sprintf("%s %s %s-%s 87\n", tag(), mt(), tag(), mt())
+		out := fmt.Sprintf("%s %s %s-%s 87 G%d\n", tag(), mt(), tag(), mt(), s.ver)
 		s.keep++
 		if s.anyv == "" {
 			s.anyv = "nil"
@@ -155,7 +169,7 @@ func (s *c17ref) step(ev int) string {
 		if !s.captured {
 			return "nocap\n"
 		}
-		return fmt.Sprintf("%s %s %s %s V%d/2 FV%d/1 V%d/0\n", tag(), mt(), mt(), tag(), s.ver, s.ver, s.ver)
+		return fmt.Sprintf("%s %s %s %s V%d/2 FV%d/1 V%d/0\nG%d G%d B%d B%d\n", tag(), mt(), mt(), tag(), s.ver, s.ver, s.ver, s.ver, s.ver, s.ver, s.ver)
 	case ev == 6:
 		s.keep++
 		s.reinit++
@@ -179,7 +193,7 @@ func (s *c17ref) step(ev int) string {
 var c17fs = func() [3]fstest.MapFS {
 	var a [3]fstest.MapFS
 	for v := 0; v < 3; v++ {
-		a[v] = goat.FS(map[string]string{"live/live.go": c17source(v)})
+		a[v] = goat.FS(map[string]string{"live/live.go": c17source(v), "lib/util/util.go": c17util(v)})
 	}
 	return a
 }()
@@ -250,7 +264,7 @@ func c17run(r *report.Run) {
 		depth = 6
 	}
 	r.Rule(fmt.Sprintf("all histories of length <= %d over 11 events (3 loads, Main, Capture, UseCaptured, Bump, Yielding x {no reload, reload v0/v1/v2 from inside the running call}) starting from a freshly loaded v0, each replayed on a fresh VM; non-trivial = history with a capture, a later load of a different version and a later use of the captured values", depth))
-	r.Assume("reference: every call made after a load prints the tag of the last loaded version (by name, captured function value, struct field, bound method, and later in the function that was running during the reload); keep never reset; reinit = 10 after each load", "state contains unbounded counters, so no state merging is attempted")
+	r.Assume("reference: every call made after a load prints the tag of the last loaded version (by name, captured function value, struct field, bound method, function value and bound method of an imported package whose import path differs from its name, and later in the function that was running during the reload); keep never reset; reinit = 10 after each load", "state contains unbounded counters, so no state merging is attempted")
 	n := len(c17events)
 	total := 0
 	for d := 1; d <= depth; d++ {
